@@ -220,9 +220,11 @@ def stage_gen_trees(run, kinds, depth, ws=1, sample=0, muts=0, name="gen_trees")
     return os.path.join(d, "cases.ndjson"), g
 
 
-def stage_groups(run, casefile, trace_every=0, name="parse_groups"):
+def stage_groups(run, casefile, trace_every=0, name="parse_groups", observe=False):
     res = os.path.join(run.work, name + ".ndjson")
     a = ["parse-groups", "-in", casefile, "-out", res]
+    if observe:
+        a.append("-observe")
     tr = None
     if trace_every:
         tr = os.path.join(run.work, name + "_trace.ndjson")
